@@ -838,6 +838,22 @@ class HTTPServer(BaseApp):
         remaining = content_range.stop - offset
         finished = False
 
+        # First pass: refuse a conflicting write before any of it is applied
+        # (BucketWriter.write() is atomic in that respect; so should this be).
+        body_start = request.content.tell()
+        check_offset, check_remaining = offset, remaining
+        while check_remaining > 0:
+            data = request.content.read(min(check_remaining, 65536))
+            assert data, "uploaded data length doesn't match range"
+            try:
+                bucket.check_conflicts(check_offset, data)
+            except ConflictingWriteError:
+                request.setResponseCode(http.CONFLICT)
+                return b""
+            check_remaining -= len(data)
+            check_offset += len(data)
+        request.content.seek(body_start)
+
         while remaining > 0:
             data = request.content.read(min(remaining, 65536))
             assert data, "uploaded data length doesn't match range"
